@@ -296,7 +296,7 @@ func genSrc(repo, out string) {
 	sb := &strings.Builder{}
 	w := func(format string, a ...any) { fmt.Fprintf(sb, format, a...) }
 	w("(* GENERATED by `harness gen-src` from the Go source in /repo. Do not edit. *)\n")
-	w("From Coq Require Import ZArith Bool List.\nImport ListNotations.\nFrom Bio Require Import Base.\nOpen Scope Z_scope.\n\n")
+	w("From Coq Require Import ZArith NArith Bool List String.\nImport ListNotations.\nFrom Bio Require Import Base.\nOpen Scope Z_scope.\n\n")
 	trs := map[string]*srcTr{}
 	for _, want := range srcWants {
 		t := trs[want.pkg]
@@ -403,6 +403,7 @@ func genSrc(repo, out string) {
 		w("\n")
 	}
 	genFmtCalls(repo, w)
+	genIterShapes(repo, w)
 	writeIfChanged(out, sb.String())
 }
 
@@ -573,6 +574,207 @@ func genFmtCalls(repo string, w func(string, ...any)) {
 		})
 		w("(* %d calls with a literal format, %d with a computed format (skipped) *)\n\n", k, dynamic)
 	}
+}
+
+// ---- where the iterators call yield --------------------------------------------------
+//
+// For every function literal of the form func(yield func(...) bool) in the listed files
+// (and for trie.ForEach, whose callback parameter is f), each call of the callback is
+// classified by its syntactic context:
+//   0 guarded   the call is negated inside the condition of an if whose body is a single
+//               return or break:  if !yield(x) { return }   if len(cur) > 0 && !f(cur) { break }
+//   1 terminal  the call is an expression statement directly followed by return or break
+//               (or is the last statement of the function literal)
+//   2 bare      anything else: the iterator may call the callback again after it
+//               answered false
+// The model of C18 (Model/Iterators.v) assumes there is no call of kind 2.
+
+var iterFiles = []struct{ file, pkg string }{
+	{"formats/fasta/iter.go", "fasta"}, {"formats/fastq/iter.go", "fastq"}, {"formats/sam/iter.go", "sam"},
+	{"formats/bed/iter.go", "bed"}, {"formats/newick/newick.go", "newick"}, {"formats/newick/traverse.go", "newick"},
+	{"trie/trie.go", "trie"}, {"sequtil/sequtil.go", "sequtil"},
+}
+
+func genIterShapes(repo string, w func(string, ...any)) {
+	w("(* the callback calls of the iterators, by syntactic context: 0 guarded, 1 terminal, 2 bare *)\n")
+	w("Definition iter_yields : list (String.string * list N) := [\n")
+	first := true
+	for _, it := range iterFiles {
+		fset := token.NewFileSet()
+		file, err := parser.ParseFile(fset, repo+"/"+it.file, nil, 0)
+		if err != nil {
+			panic(err)
+		}
+		for _, d := range file.Decls {
+			fd, ok := d.(*ast.FuncDecl)
+			if !ok || fd.Body == nil {
+				continue
+			}
+			name := fd.Name.Name
+			if fd.Recv != nil {
+				rt := fd.Recv.List[0].Type
+				if st, ok := rt.(*ast.StarExpr); ok {
+					rt = st.X
+				}
+				if id, ok := rt.(*ast.Ident); ok {
+					name = id.Name + "." + name
+				}
+			}
+			// callback names and the bodies they are called in
+			type site struct {
+				cb   string
+				body *ast.BlockStmt
+			}
+			var sites []site
+			if it.pkg == "trie" && name == "Trie.ForEach" {
+				sites = append(sites, site{fd.Type.Params.List[0].Names[0].Name, fd.Body})
+			}
+			ast.Inspect(fd.Body, func(n ast.Node) bool {
+				fl, ok := n.(*ast.FuncLit)
+				if !ok || fl.Type.Params.NumFields() != 1 {
+					return true
+				}
+				p := fl.Type.Params.List[0]
+				if ft, ok := p.Type.(*ast.FuncType); ok && len(p.Names) == 1 && ft.Results.NumFields() == 1 {
+					if id, ok := ft.Results.List[0].Type.(*ast.Ident); ok && id.Name == "bool" {
+						sites = append(sites, site{p.Names[0].Name, fl.Body})
+					}
+				}
+				return true
+			})
+			for k, st := range sites {
+				kinds := classifyYields(st.cb, st.body)
+				if len(kinds) == 0 {
+					continue
+				}
+				if !first {
+					w(";\n")
+				}
+				first = false
+				strs := make([]string, len(kinds))
+				for i, c := range kinds {
+					strs[i] = fmt.Sprintf("%d%%N", c)
+				}
+				w("  (\"%s.%s#%d\"%%string, [%s])", it.pkg, name, k, strings.Join(strs, "; "))
+			}
+		}
+	}
+	w("\n].\n")
+}
+
+func isExit(s ast.Stmt) bool {
+	switch s := s.(type) {
+	case *ast.ReturnStmt:
+		return true
+	case *ast.BranchStmt:
+		return s.Tok == token.BREAK
+	}
+	return false
+}
+
+// negatedCall: e contains !cb(...) as an operand of && / || (or is it).
+func negatedCall(e ast.Expr, cb string) bool {
+	switch e := e.(type) {
+	case *ast.ParenExpr:
+		return negatedCall(e.X, cb)
+	case *ast.UnaryExpr:
+		if e.Op == token.NOT {
+			if c, ok := e.X.(*ast.CallExpr); ok {
+				if id, ok := c.Fun.(*ast.Ident); ok && id.Name == cb {
+					return true
+				}
+			}
+		}
+	case *ast.BinaryExpr:
+		if e.Op == token.LAND || e.Op == token.LOR {
+			return negatedCall(e.X, cb) || negatedCall(e.Y, cb)
+		}
+	}
+	return false
+}
+
+func classifyYields(cb string, body *ast.BlockStmt) []int {
+	var kinds []int
+	isCall := func(e ast.Expr) bool {
+		c, ok := e.(*ast.CallExpr)
+		if !ok {
+			return false
+		}
+		id, ok := c.Fun.(*ast.Ident)
+		return ok && id.Name == cb
+	}
+	counted := map[*ast.CallExpr]bool{}
+	var walkBlock func(list []ast.Stmt, last bool)
+	var walkStmt func(s ast.Stmt, next ast.Stmt, last bool)
+	walkStmt = func(s ast.Stmt, next ast.Stmt, last bool) {
+		switch s := s.(type) {
+		case *ast.IfStmt:
+			if negatedCall(s.Cond, cb) {
+				k := 2
+				if len(s.Body.List) == 1 && isExit(s.Body.List[0]) {
+					k = 0
+				}
+				kinds = append(kinds, k)
+				ast.Inspect(s.Cond, func(n ast.Node) bool {
+					if c, ok := n.(*ast.CallExpr); ok && isCall(c) {
+						counted[c] = true
+					}
+					return true
+				})
+			}
+			// the last statement of a branch is followed by whatever follows the if
+			after := (next != nil && isExit(next)) || (next == nil && last)
+			walkBlock(s.Body.List, after)
+			switch e := s.Else.(type) {
+			case *ast.BlockStmt:
+				walkBlock(e.List, after)
+			case *ast.IfStmt:
+				walkStmt(e, next, last)
+			}
+		case *ast.ExprStmt:
+			if c, ok := s.X.(*ast.CallExpr); ok && isCall(c) {
+				counted[c] = true
+				if (next != nil && isExit(next)) || (next == nil && last) {
+					kinds = append(kinds, 1)
+				} else {
+					kinds = append(kinds, 2)
+				}
+			}
+		case *ast.ForStmt:
+			walkBlock(s.Body.List, false)
+		case *ast.RangeStmt:
+			walkBlock(s.Body.List, false)
+		case *ast.BlockStmt:
+			walkBlock(s.List, last)
+		case *ast.SwitchStmt:
+			for _, cc := range s.Body.List {
+				walkBlock(cc.(*ast.CaseClause).Body, false)
+			}
+		case *ast.LabeledStmt:
+			walkStmt(s.Stmt, next, last)
+		}
+	}
+	walkBlock = func(list []ast.Stmt, last bool) {
+		for i, s := range list {
+			var next ast.Stmt
+			if i+1 < len(list) {
+				next = list[i+1]
+			}
+			walkStmt(s, next, last && i == len(list)-1)
+		}
+	}
+	walkBlock(body.List, true)
+	// any call of the callback in a context not understood above is bare
+	ast.Inspect(body, func(n ast.Node) bool {
+		if fl, ok := n.(*ast.FuncLit); ok && fl.Body != body {
+			return false // nested literals are sites of their own
+		}
+		if c, ok := n.(*ast.CallExpr); ok && isCall(c) && !counted[c] {
+			kinds = append(kinds, 2)
+		}
+		return true
+	})
+	return kinds
 }
 
 func contains(l []string, s string) bool {
